@@ -619,7 +619,7 @@ CHECKS = {
         budget_s={'quick': 400, 'thorough': 3000},
         coverage=ex_cov,
         rule='grammars x routes x utterances (including 0, 1, 2, 3-frame ones) x {one call; frame-sized chunks with a partial result after '
-             'each chunk}; on every partial and final result: segments contiguous from frame 0, positive length, within the frames searched, '
+             'each chunk; one full-utterance call with every partial query before decoder_end_utt}; on every partial and final result: segments contiguous from frame 0, positive length, within the frames searched, '
              'null segments zero-length at the preceding boundary, sum(ascr+lscr) == path score, lscr == an arc weight, hypothesis == base '
              'forms of non-filler segments, frames returned by processing calls + end_utt == frames the front end makes of the samples. '
              'Frame accounting also on REAL audio up to 2.8 s (mc_chunk --props C03): for every call pattern with <= 1-2 deviations over the '
